@@ -7,6 +7,7 @@ import mmap
 import struct
 import array
 import io
+import os as _verif_os
 from collections import abc
 import functools
 from typing import Tuple, Union, List, Iterable, Any, Optional, BinaryIO, TextIO, overload, Iterator, Type, TypeVar
@@ -1538,6 +1539,9 @@ class Bits:
         """
         # If the bitstring is file based then we don't want to read it all in to memory first.
         chunk_size = 8 * 100 * 1024 * 1024  # 100 MiB
+        if _verif_os.environ.get('SCOTT_GRIFFITHS_BITSTRING_VERIF') == '1':
+            # Verification hook: lets a harness cross the chunk boundary with small data. Inactive unless the variable is set.
+            chunk_size = getattr(bitstring, '_verif_tofile_chunk_bits', chunk_size)
         for chunk in self.cut(chunk_size):
             f.write(chunk.tobytes())
 
